@@ -639,6 +639,92 @@ def compressed_crossing(role, comp, initiator, seed):
         pair.close()
 
 
+def recv_during_rekey(role, rng):
+    """Channel data of the peer is already buffered at the subject when the subject starts a re-exchange that is then
+    held open; a user thread reads the data *during* the exchange — the window credit it earns cannot be sent yet.
+    After the exchange the peer's send window must be whole again: peer's out_window + what the subject still owes
+    (in_window_sofar) = the channel window."""
+    from tests._loop import LoopSocket
+
+    gate, other = L.gate_socket(), LoopSocket()
+    gate.link(other)
+    socks = (other, gate) if role == "server" else (gate, other)
+    pair = L.Pair(role, "Transport", True, socks=socks)
+    sub, peer = pair.subject, pair.peer
+    out = {"role": role}
+    try:
+        pair.ts.default_window_size = 32768
+        ch = pair.tc.open_session(window_size=32768, timeout=30)
+        sch = pair.ts.accept(30)
+        if sch is None:
+            raise InfraError("accept timed out")
+        sub_ch, peer_ch = (sch, ch) if role == "server" else (ch, sch)
+        tap = L.Tap(sub)
+        sub.clear_to_send_timeout = 6.0
+        window = sub_ch.in_window_size
+        n = rng.randrange(4000, 9000)                     # more than a tenth of the window: a credit is due
+        data = rng.randbytes(n)
+        peer_ch.sendall(data)
+        L.wait_until(lambda: len(sub_ch.in_buffer) >= n or not sub.is_alive(), 30, "the data to reach the channel buffer")
+        if not pair.barrier():
+            raise InfraError("session not usable before the re-exchange")
+        out["peer_window_before"] = peer_ch.out_window_size
+        gate.close_gate()                                 # the peer's kex packets will wait: the exchange stays open
+        mark = len(tap.tx)
+        sub._send_kex_init()
+        got, excs = [], []
+
+        def reader():
+            try:
+                sub_ch.settimeout(20)
+                buf = b""
+                while len(buf) < n:
+                    x = sub_ch.recv(n - len(buf))
+                    if not x:
+                        break
+                    buf += x
+                got.append(buf)
+            except Exception as e:
+                excs.append(repr(e))
+
+        th = threading.Thread(target=reader, daemon=True)
+        th.start()
+        # the data is out of the buffer (read during the exchange) before the exchange may go on
+        L.wait_until(lambda: len(sub_ch.in_buffer) == 0 or not th.is_alive(), 30, "the reader to take the data")
+        out["read_while_in_kex"] = bool(sub.in_kex and not sub.clear_to_send.is_set())
+        gate.gate.set()
+
+        def settled():
+            return (not sub.is_alive() or not peer.is_alive()) or (
+                not sub.in_kex and not peer.in_kex and sub.clear_to_send.is_set() and peer.clear_to_send.is_set()
+                and any(r[0] == 21 for r in tap.tx[mark:]))
+
+        t0 = time.time()
+        while not (settled() and not th.is_alive()) and time.time() - t0 < 12:
+            time.sleep(0.01)
+        out["completed"] = bool(sub.is_active() and peer.is_active() and settled()
+                                and any(r[0] == 21 for r in tap.tx[mark:]))
+        out["reader_exc"] = excs
+        out["data_intact"] = bool(got and got[0] == data)
+        types = [r[0] for r in tap.tx[mark:]]
+        i20 = types.index(20) if 20 in types else len(types)
+        win = []
+        for t in types[i20 + 1:]:
+            if t == 21:
+                break
+            win.append(t)
+        out["window"] = win
+        if out["completed"]:
+            pair.barrier()                                # whatever the subject sent after NEWKEYS has arrived
+            out["peer_window_after"] = peer_ch.out_window_size
+            out["subject_owes"] = sub_ch.in_window_sofar
+            out["channel_window"] = window
+        out["sub_exc"] = repr(sub.saved_exception)
+        return out
+    finally:
+        pair.close()
+
+
 def run(ctx):
     L.quiet_logging()
     L.stub_gss()
@@ -824,6 +910,25 @@ def run(ctx):
                      "subject %s (%s) peer %s" % (o["sub_exc"], o["sub_site"], o["peer_exc"]))
         elif not o["delivered"]:
             ctx.fail("in-flight-message-lost:received-bytes-trigger", o, "channel data not delivered intact")
+
+    # ---------------- channel data read by the application while the exchange is open: the credit must survive
+    for role in ("server", "client"):
+        o = recv_during_rekey(role, ctx.rng)
+        ctx.case(("recv-during-rekey", role), True)
+        ctx.dist("recv-during-rekey:" + role)
+        ctx.sample(o, limit=24)
+        if not o["read_while_in_kex"]:
+            ctx.broken.append({"kind": "harness", "what": "recv-during-rekey", "detail": "the read did not happen inside the exchange"})
+        offending = [t for t in o["window"] if t >= 50]
+        if offending:
+            ctx.fail("user-message-inside-kex-window:recv-during-rekey", o, "types %r between KEXINIT and NEWKEYS" % offending)
+        elif not o["completed"] or o["reader_exc"] or not o["data_intact"]:
+            ctx.fail("re-exchange-fails:recv-during-rekey", o, "subject %s reader %r" % (o["sub_exc"], o["reader_exc"]))
+        elif o["peer_window_after"] + o["subject_owes"] != o["channel_window"]:
+            ctx.fail("window-credit-lost-across-rekey", o,
+                     "peer may send %d, subject still owes %d, channel window %d: %d bytes of credit are gone"
+                     % (o["peer_window_after"], o["subject_owes"], o["channel_window"],
+                        o["channel_window"] - o["peer_window_after"] - o["subject_owes"]))
 
     # ---------------- send-side threshold trigger while an inbound packet arrives in fragments with idle gaps
     for role, ka in (("server", False), ("client", False), ("server", True), ("client", True)):
